@@ -58,7 +58,7 @@ class Task(object):
 
 class Kernel(object):
     def __init__(self, seed, policy="random", sticky=0.0, preempt_p=0.0, max_steps=400000,
-                 max_time=None, decisions=None, pct_depth=2, pct_len=3000):
+                 max_time=None, decisions=None, pct_depth=2, pct_len=3000, step_us=0):
         self.seed = seed
         self.rng = stream(seed, "sched")
         self.prng = stream(seed, "preempt")
@@ -95,6 +95,9 @@ class Kernel(object):
             self.pct_points = []
         self.pct_low = 0.0
         self._preempting = False
+        # virtual cost of one scheduling step (0 = computing takes no time): with a cost > 0 timers expire and sleepers wake
+        # while another task is in the middle of its work, not only when everybody is idle
+        self.step_us = int(step_us)
 
     # ------------------------------------------------------------------ time
     def time(self):
@@ -168,6 +171,13 @@ class Kernel(object):
         if self.steps >= self.max_steps:
             self.status = "steplimit"
             return None
+        if self.step_us:
+            self.now += self.step_us
+            for t in self.tasks:
+                if t.state == W and t.wake_at is not None and t.wake_at <= self.now:
+                    t.state = R
+                    t.woken = False
+                    t.wake_at = None
         self._fire_timers()
         r = self._runnable()
         while not r:
